@@ -1,13 +1,13 @@
 //! `#[kani::proof]` harnesses: thin wrappers around the bodies in `h_*.rs`.
 //! Harness path = `proofs::<group>::<cell>`; one cargo feature per property so that a run only compiles the
-//! harnesses it needs; feature `deep` adds the thorough-tier cells.
+//! harnesses it needs; every cell of every tier is always declared (only the harnesses named with --harness are code-generated).
 
 #![allow(unused_imports)]
 #![allow(unused_macros)]
 
 use crate::family::magics_model;
 use crate::family::obs::push_observer;
-use crate::h_c13::{format_any, gen_any_one};
+use crate::h_c13::{cut_success_path, format_any, gen_any_one, uci_string_any};
 use crate::h_zobrist::psq_indicator;
 use crate::refchess::{B, N, P, Q, R};
 use crate::{deep2_cells, deep3_cells, quick_cells, squares64, tiny_cells};
@@ -43,7 +43,23 @@ macro_rules! kfam13 {
         #[kani::stub(std::vec::Vec::push, push_observer)]
         #[kani::stub(<[inkayaku_board::verif::MagicConfiguration; 64] as inkayaku_board::verif::UnsafeMagicsExt>::get_attacks, magics_model)]
         #[kani::stub(inkayaku_board::Bitboard::generate_pseudo_legal_moves, gen_any_one)]
+        #[kani::stub(inkayaku_board::Move::to_uci_string, uci_string_any)]
         #[kani::stub(alloc::fmt::format, format_any)]
+        pub fn $cell() { $body(&$kinds, $turn, true) }
+    };
+}
+
+/// C13 uci_to_pgn: additionally the success path is cut after the validity check
+macro_rules! kfam13san {
+    ($group:ident, $cell:ident, $body:path, $kinds:expr, $turn:expr) => {
+        #[kani::proof]
+        #[kani::unwind(9)]
+        #[kani::stub(std::vec::Vec::push, push_observer)]
+        #[kani::stub(<[inkayaku_board::verif::MagicConfiguration; 64] as inkayaku_board::verif::UnsafeMagicsExt>::get_attacks, magics_model)]
+        #[kani::stub(inkayaku_board::Bitboard::generate_pseudo_legal_moves, gen_any_one)]
+        #[kani::stub(inkayaku_board::Move::to_uci_string, uci_string_any)]
+        #[kani::stub(alloc::fmt::format, format_any)]
+        #[kani::stub(inkayaku_board::Bitboard::is_current_in_check, cut_success_path)]
         pub fn $cell() { $body(&$kinds, $turn, true) }
     };
 }
@@ -79,12 +95,11 @@ macro_rules! family_group {
         #[cfg(feature = $feature)]
         pub mod $group {
             use super::*;
+            // Kani only generates code for the harnesses selected with --harness, so listing every cell
+            // here costs nothing at verification time
             quick_cells!($k, $group, $body);
-            #[cfg(feature = "deep")]
             deep2_cells!($k, $group, $body);
-            #[cfg(feature = "deep")]
             deep3_cells!($k, $group, $body);
-            #[cfg(feature = "deep")]
             tiny_cells!($k, $group, $body);
         }
     };
@@ -102,7 +117,7 @@ family_group!("c06", c06_incr, kfam6, crate::h_board::c06_incr);
 family_group!("c13", c13_find, kfam13, crate::h_c13::c13_find);
 family_group!("c13", c13_make, kfam13, crate::h_c13::c13_make);
 family_group!("c13", c13_all, kfam13, crate::h_c13::c13_all);
-family_group!("c13", c13_san, kfam13, crate::h_c13::c13_san);
+family_group!("c13", c13_san, kfam13san, crate::h_c13::c13_san);
 
 #[cfg(feature = "c04")]
 pub mod c04_rook {
@@ -148,11 +163,9 @@ pub mod c10 {
     kplain!(rep_b0_w12, 15, crate::h_engine::c10_rep::<12>(0, 4095));
     kplain!(rep_b1_w12, 15, crate::h_engine::c10_rep::<12>(1, 4095));
     kplain!(rep_b100_w40, 43, crate::h_engine::c10_rep::<40>(100, 40));
-    kplain!(rep_b4959_w40, 43, crate::h_engine::c10_rep::<40>(4959, 4095));
-    #[cfg(feature = "deep")]
+    kplain!(rep_b4959_w40, 43, crate::h_engine::c10_rep::<40>(4959, 40));
     kplain!(rep_b100_w120, 123, crate::h_engine::c10_rep::<120>(100, 120));
-    #[cfg(feature = "deep")]
-    kplain!(rep_b4879_w120, 123, crate::h_engine::c10_rep::<120>(4879, 4095));
+    kplain!(rep_b4879_w120, 123, crate::h_engine::c10_rep::<120>(4879, 120));
     kplain!(index_inrange, 2, crate::h_engine::c10_index(2500));
     kplain!(index_all, 2, crate::h_engine::c10_index(u32::MAX));
     kplain!(fifty, 4, crate::h_engine::c10_fifty());
@@ -177,4 +190,29 @@ pub mod c15 {
     kplain!(square, 2, crate::h_uci::c15_square());
     kplain!(square_text, 4, crate::h_uci::c15_square_text());
     kplain!(roundtrip, 8, crate::h_uci::c15_roundtrip());
+}
+
+#[cfg(feature = "dbg")]
+pub mod dbg {
+    use super::*;
+    use inkayaku_board::verif;
+    use inkayaku_board::Bitboard;
+    #[kani::proof]
+    #[kani::unwind(9)]
+    #[kani::stub(std::vec::Vec::push, push_observer)]
+    #[kani::stub(<[inkayaku_board::verif::MagicConfiguration; 64] as inkayaku_board::verif::UnsafeMagicsExt>::get_attacks, magics_model)]
+    #[kani::stub(inkayaku_board::Bitboard::generate_pseudo_legal_moves, gen_any_one)]
+    #[kani::stub(alloc::fmt::format, format_any)]
+    pub fn find_concrete() {
+        let mut w = [0u64; 7];
+        let mut b = [0u64; 7];
+        w[6] = 1u64 << 60;
+        b[6] = 1u64 << 44;
+        let mut bb = Bitboard { white: verif::player_state(w, false, false), black: verif::player_state(b, false, false), turn: 0, en_passant_square_shift: 0, fullmove_clock: 1, halfmove_clock: 0 };
+        let b: [u8; 5] = [kani::any::<u8>() & 127, kani::any::<u8>() & 127, kani::any::<u8>() & 127, kani::any::<u8>() & 127, kani::any::<u8>() & 127];
+        let five: bool = kani::any();
+        let t = unsafe { std::str::from_utf8_unchecked(&b[..if five { 5 } else { 4 }]) };
+        let r = bb.find_uci(t);
+        core::mem::forget(r);
+    }
 }
